@@ -221,6 +221,50 @@ def illegal(case):
     return 'accepted'
 
 
+def dro_late_rvar(case, labels):
+    """dro: two affinely adaptive decisions, the second random array declared before or after the first adapt() call (and
+    before / after the ambiguity set is created): same optimum, same dependence pattern, no exception"""
+    from rsome import dro, E
+    S, when, w2 = case['S'], case['when'], case['second']
+    labels = labels + ['late_rvar:' + when, 'second:' + w2]
+
+    def build(order):
+        m = dro.Model(S)
+        x, y1, y2 = m.dvar(), m.dvar(), m.dvar(2)
+        z1 = m.rvar()
+        z2 = m.rvar(2) if order == 'early' else None
+        y1.adapt(z1)
+        if order == 'after_adapt':
+            z2 = m.rvar(2)
+        if w2 == 'whole':
+            y2.adapt(z2)
+        elif w2 == 'entry':
+            y2[1].adapt(z2[0])
+        fs = m.ambiguity()
+        fs.suppset(abs(z1) <= 1, abs(z2) <= 2)
+        fs.exptset(E(z1) == 0, E(z2) == 0)
+        m.minsup(x + E(y1 + y2.sum()), fs)
+        m.st(y1 >= z1 - x, y1 >= 0, y2 >= z2 - 2 * x, y2 >= -z2 - x, x >= 0, x <= 5)
+        with quiet():
+            m.solve(display=False)
+        pat = [np.isnan(np.asarray(y1.get(z1), dtype=float)).ravel().tolist()]
+        if w2 != 'none':
+            pat.append(np.isnan(np.asarray(y2.get(z2), dtype=float)).ravel().tolist())
+            pat.append(np.isnan(np.asarray(y1.get(z2), dtype=float)).ravel().tolist())
+        return m.get(), pat
+    ref = build('early')
+    try:
+        got = build(when)
+    except Exception as ex:
+        return Outcome.fail('dro_late_rvar:raises', 'a random array declared after the first adapt() call: %r (declared before it the model '
+                            'solves to %.9g)' % (ex, ref[0]), labels)
+    if abs(got[0] - ref[0]) > 1e-6 * (1 + abs(ref[0])):
+        return Outcome.fail('dro_late_rvar:value', 'optimum %.9g with the random array declared after the first adapt() call, %.9g before it' % (got[0], ref[0]), labels)
+    if got[1] != ref[1]:
+        return Outcome.fail('dro_late_rvar:pattern', 'dependence pattern (NaN coefficients) %r vs %r' % (got[1], ref[1]), labels)
+    return Outcome.ok(True, labels)
+
+
 class C13(Prop):
     id = 'C13'
     rule = ('(mask_ro) ro models with LDRs on random dependency masks: y.get(z) must be NaN exactly off the declared mask and the '
@@ -257,6 +301,8 @@ class C13(Prop):
             return Outcome.fail('illegal_accepted:' + case['which'], 'illegal declaration %s was %s' % (case['which'], msg), labels)
         if mode == 'mix':
             return self.check_mix(case, labels)
+        if mode == 'dro_late_rvar':
+            return dro_late_rvar(case, labels)
         if mode == 'static_rule':
             # a decision rule that never adapts is an ordinary decision: declared before / after / without random variables
             from rsome import ro
@@ -391,7 +437,7 @@ class C13(Prop):
         """all pairs of partitions (as canonical adapt sequences) of 3 (quick) or 4 (thorough) scenarios"""
         S = 3 if tier == 'quick' else 4
         parts = list(partitions(S))
-        failures, labels, nt, samples = [], {}, [], []
+        failures, labels, nt, samples, herrs = [], {}, [], [], []
         count = 0
         for P1 in parts:
             for P2 in parts:
@@ -413,8 +459,20 @@ class C13(Prop):
                         nt.append(case_hash(case))
                         if len(samples) < 2:
                             samples.append(case)
+        for S_ in (1, 2, 3):
+            for second in ('whole', 'entry', 'none'):
+                case = {'mode': 'dro_late_rvar', 'S': S_, 'when': 'after_adapt', 'second': second}
+                from vf.core import safe_check
+                out = safe_check(self, case)
+                count += 1
+                if out.status == 'fail':
+                    failures.append({'bucket': 'enum:' + out.bucket, 'msg': out.msg, 'case': case, 'index': -1, 'shard': 0, 'count': 1})
+                elif out.status == 'harness_error':
+                    herrs.append({'msg': out.msg, 'case': case})
+                elif out.nontrivial:
+                    nt.append(case_hash(case))
         labels['enumerated_partition_pairs'] = count
-        return {'evaluations': count, 'labels': labels, 'failures': failures[:3], 'harness_errors': [], 'nt_hashes': nt,
+        return {'evaluations': count, 'labels': labels, 'failures': failures[:3], 'harness_errors': herrs, 'nt_hashes': nt,
                 'samples': samples, 'coverage': {'exhaustive_partition_pairs': '%d scenarios: %d x %d partitions x 2 declaration orders' % (S, len(parts), len(parts))}}
 
 
